@@ -40,7 +40,9 @@ INSTRUMENT = {
     # (none today: a pooled scratch buffer introduced there becomes a deterministic, explorable pool)
     "pipe": [("vflow", ["ipfix.go", "sflow.go", "netflow_v5.go", "netflow_v9.go", "vflow.go", "ipfix_unix.go", "sflow_unix.go"], "vflowMain"),
              ("sflow", "*", None), ("packet", "*", None), ("reader", "*", None), ("netflow/v5", "*", None),
-             ("netflow/v9", "*-memcache.go", None), ("ipfix", "*-memcache.go-memcache_rpc.go-decoder.go-rfc5102_model.go", None)],
+             ("netflow/v9", "*-memcache.go", None), ("ipfix", "*-memcache.go-memcache_rpc.go-decoder.go-rfc5102_model.go", None),
+             # the template caches read the VIRTUAL clock here too (no wall-clock dependence), their locks stay ordinary locks
+             ("netflow/v9", ["memcache.go"], "SEAMS"), ("ipfix", ["memcache.go"], "SEAMS")],
     # the shutdown check also makes the template cache's lock operations scheduling points (dump vs. a worker's insert)
     "pipe15": [("vflow", ["ipfix.go", "sflow.go", "netflow_v5.go", "netflow_v9.go", "vflow.go", "ipfix_unix.go", "sflow_unix.go"], "vflowMain"),
                ("sflow", "*", None), ("packet", "*", None), ("reader", "*", None), ("netflow/v5", "*", None),
@@ -66,7 +68,9 @@ def instrument(name):
         outd = os.path.join(orch.BUILD, "instr_%d" % os.getpid(), name, pkg)
         os.makedirs(outd, exist_ok=True)
         cmd = [tool, "-out", outd]
-        if rename:
+        if rename == "SEAMS":  # environment seams only (virtual clock ...): no additional scheduling points
+            cmd += ["-seams-only"]
+        elif rename:
             cmd += ["-rename-main", rename]
         cmd += [os.path.join(orch.REPO, pkg, f) for f in files]
         r = subprocess.run(cmd, stdout=subprocess.PIPE, stderr=subprocess.STDOUT, text=True)
